@@ -68,11 +68,11 @@ func (p *pipeTarget) Subscribe(stream pb.GNMI_SubscribeServer) error {
 	drop := p.dropAt
 	p.mu.Unlock()
 	for i, m := range script {
-		if n == 1 && drop > 0 && i == drop {
-			return fmt.Errorf("scripted disconnect")
-		}
 		if err := stream.Send(m); err != nil {
 			return err
+		}
+		if n == 1 && drop > 0 && i+1 == drop {
+			return fmt.Errorf("scripted disconnect")
 		}
 	}
 	// sentinel last, through the same FIFO pipeline, then sync
@@ -218,6 +218,7 @@ func (e *pipeEnv) genScript(t string) {
 	pt := e.targets[t]
 	n := 8 + r.Intn(25)
 	names := []string{"a", "b", "c", "interfaces", "state"}
+	var used [][]string
 	for i := 0; i < n; i++ {
 		// full path: 1-3 elements, some keyed
 		var elems []*pb.PathElem
@@ -257,6 +258,21 @@ func (e *pipeEnv) genScript(t string) {
 			eff = "openconfig"
 		}
 		full := append([]string{eff}, idxNoOrigin(prefix, path)...)
+		// a data tree has no node that is both a leaf and a branch
+		clash := false
+		for _, u := range used {
+			k := len(u)
+			if len(full) < k {
+				k = len(full)
+			}
+			if len(u) != len(full) && strings.Join(u[:k], "\x00") == strings.Join(full[:k], "\x00") {
+				clash = true
+			}
+		}
+		if clash {
+			continue
+		}
+		used = append(used, full)
 		n := &pb.Notification{Timestamp: time.Now().UnixNano() + int64(i), Prefix: prefix}
 		if r.Intn(5) == 0 {
 			// delete: the leaf itself or its parent subtree
